@@ -62,12 +62,14 @@ type leakCase struct {
 	RaceParentClose bool
 	// every 5th cycle the scope is created on a context that has already been cancelled
 	PreCancelled bool
+	// two scopes of consecutive cycles are open at the same time; the older one is closed first
+	Overlap bool
 }
 
 func (c *leakCase) Describe() map[string]any {
 	return map[string]any{"engine": "leak-sim", "cycles": c.N, "nesting": c.Nest, "creation_context": []string{"long-lived caller context", "nil ctx on long-lived parent scope", "background"}[c.ParentKind],
 		"initializer_fails_every": c.FailEvery, "failing_initializer": c.FailPos, "close_by_cancel_every_7th": c.UseWatcher, "double_close": c.Double,
-		"child_creation_races_with_close_of_the_scope": c.RaceParentClose, "every_5th_scope_created_on_a_cancelled_context": c.PreCancelled, "instance_close_fails_every": c.CloseFailEvery, "failing_close_kinds(1=scoped,2=transient)": c.CloseFailKinds}
+		"child_creation_races_with_close_of_the_scope": c.RaceParentClose, "every_5th_scope_created_on_a_cancelled_context": c.PreCancelled, "sibling_scopes_overlap_older_closed_first": c.Overlap, "instance_close_fails_every": c.CloseFailEvery, "failing_close_kinds(1=scoped,2=transient)": c.CloseFailKinds}
 }
 
 func decodeLeakCase(tier string, idx int, tape *Tape) *leakCase {
@@ -96,6 +98,7 @@ func decodeLeakCase(tier string, idx int, tape *Tape) *leakCase {
 		c.CloseFailKinds = 1 + tape.Choose(StFault, 3)
 	}
 	c.PreCancelled = tape.Choose(StOps, 3) == 0
+	c.Overlap = idx%3 == 1
 	if tape.Choose(StOps, 4) == 0 {
 		c.RaceParentClose = true
 		if c.N > 100 {
@@ -207,6 +210,7 @@ func (e *leakEngine) exec(c *leakCase, tape *Tape) *RunOut {
 			base = ps
 			r.builtSvcs = len(r.weakSvc) // the open parent scope's own instances stay alive
 		}
+		var prevScope godi.Scope
 		for i := 0; i < c.N; i++ {
 			simrt.BeginOp()
 			r.creation++
@@ -312,6 +316,21 @@ func (e *leakEngine) exec(c *leakCase, tape *Tape) *RunOut {
 					add("C13.cancel", "leak-engine", "cycle %d: scope still usable after its creation context was cancelled and every task settled: %v", i, err)
 					r.vs[len(r.vs)-1].Prop = "C13"
 				}
+			} else if c.Overlap && !c.RaceParentClose {
+				// this cycle's scope stays open until the next cycle has created its own: two siblings
+				// are open at once and the older one is closed first
+				if prevScope != nil {
+					prevScope.Close()
+					if prevScope.Context().Err() == nil {
+						add("C14.ctx", "not-cancelled", "cycle %d: Context().Err() is nil after the scope was closed", i)
+					}
+				}
+				prevScope = s
+				r.closeFailNow = false
+				s, child = nil, nil
+				out.Reach["cycles"]++
+				out.Reach["overlapping-siblings"]++
+				continue
 			} else {
 				s.Close()
 				if c.Double {
@@ -324,6 +343,10 @@ func (e *leakEngine) exec(c *leakCase, tape *Tape) *RunOut {
 			}
 			s, child = nil, nil
 			out.Reach["cycles"]++
+		}
+		if prevScope != nil {
+			prevScope.Close()
+			prevScope = nil
 		}
 		simrt.Settle(siteWait)
 		liveAfter = sim.LiveSpawned()
